@@ -26,7 +26,7 @@ func init() {
 				Rule: "command path: rule alphabet = name{configure,show,*} x action{permit,deny} x match{none, [p] for 11 patterns (plain, alternation, partial anchors, escaped/unescaped dot, wildcards, invalid, padded), 6 pairs}; " +
 					"policies = every single rule, every ordered pair of user rules, every (user rule, group rule) pair over the full alphabet, and every 3- and 4-rule policy (2 user + 1+1 group rules) over a reduced 12-rule alphabet; " +
 					"requests = cmd{configure,show,conf} x 10 argument lists x {service first, cmd first} x {cmd=, cmd*} x {shell, ppp}. session path: 1-3 services (user and group) over name{shell,ppp,junos-exec} x " +
-					"match{none,[protocol=ip],[scope=s1],both} x set_values{[a=1],[b*2],both} x requests{service=shell cmd=, service=ppp protocol=ip, service=ppp protocol=ipx, service*shell, none} x scope{s1,s2}. " +
+					"match{none,[protocol=ip],[scope=s1],both} x set_values{[a=1],[b*2],both} x requests{service=shell cmd=, service=ppp protocol=ip, service=ppp protocol=ipx, service*shell, none, and the same with a client-supplied scope=s1 / scope=s2 attribute} x connection scope{s1,s2}. " +
 					"Every (policy, request) pair is evaluated by the real stringy authorizer (direct handler call, recording Response) and by the independent evaluator mc/ref/authz.go. " +
 					"distinct_nontrivial = distinct (policy, request) pairs on which at least one rule/service applies",
 				Assumptions: []string{"whole-string match is stated with Go's regexp as ^(?:p)$", "where evaluation reaches an invalid pattern before a decision both FAIL and the skip-the-pattern result are accepted (the statement leaves it open)",
@@ -333,7 +333,10 @@ func c11Run(c *Ctx) {
 			}
 		}
 	}
-	sessReqs := [][]string{{"service=shell", "cmd="}, {"service=ppp", "protocol=ip"}, {"service=ppp", "protocol=ipx"}, {"service*shell"}, {"service=shell", "cmd*"}, {"service=junos-exec"}, {"protocol=ip"}, {}}
+	// requests include a client-supplied scope attribute: the scope a service is matched against is the connection's,
+	// whatever the client claims
+	sessReqs := [][]string{{"service=shell", "cmd="}, {"service=ppp", "protocol=ip"}, {"service=ppp", "protocol=ipx"}, {"service*shell"}, {"service=shell", "cmd*"}, {"service=junos-exec"}, {"protocol=ip"}, {},
+		{"service=shell", "cmd=", "scope=s1"}, {"service=shell", "cmd=", "scope=s2"}, {"scope=s1", "service=ppp", "protocol=ip"}, {"scope=s2", "service=ppp", "protocol=ip"}}
 	for _, s1 := range svcAlpha {
 		job++
 		if !c.Mine(job) {
